@@ -76,7 +76,50 @@ func checkC19(h *hx.H, c layCase) {
 	h.NonTrivial(rich)
 }
 
+// genLeafStack: root-level leaves (optionally inside one plain container), most of them not
+// connected, with tall labels (3-4 lines) or icons placed outside / at the top or bottom, any
+// root direction, both engines: the space such labels need is added by shifting shapes after
+// the engine ran, and everything stacked next to a shifted shape has to move along.
+func genLeafStack(t *rapid.T) layCase {
+	var sb strings.Builder
+	if d := rapid.SampledFrom([]string{"", "up", "down", "left", "right", "right"}).Draw(t, "dir"); d != "" {
+		sb.WriteString("direction: " + d + "\n")
+	}
+	n := rapid.IntRange(3, 6).Draw(t, "n")
+	pre, ind := "", ""
+	if rapid.IntRange(0, 3).Draw(t, "boxed") == 0 {
+		sb.WriteString("box: {\n")
+		pre, ind = "box.", "  "
+	}
+	pos := []string{"outside-top-center", "outside-top-left", "outside-bottom-center", "outside-bottom-right", "top-center", "bottom-center", "outside-left-center", "outside-right-center"}
+	for i := 0; i < n; i++ {
+		lbl := rapid.SampledFrom([]string{"x", "node", "l1\\nl2\\nl3", "l1\\nl2\\nl3\\nl4", "a longer label\\nsecond line\\nthird"}).Draw(t, "lbl")
+		sb.WriteString(ind + "n" + string(rune('0'+i)) + ": \"" + lbl + "\" {\n")
+		switch rapid.IntRange(0, 4).Draw(t, "deco") {
+		case 0, 1:
+			sb.WriteString(ind + "  label.near: " + rapid.SampledFrom(pos).Draw(t, "lnear") + "\n")
+		case 2:
+			sb.WriteString(ind + "  icon: https://icons.terrastruct.com/essentials/004-picture.svg\n" + ind + "  icon.near: " + rapid.SampledFrom(pos[:4]).Draw(t, "inear") + "\n")
+		}
+		sb.WriteString(ind + "}\n")
+	}
+	if pre != "" {
+		sb.WriteString("}\n")
+	}
+	ne := rapid.IntRange(0, 2).Draw(t, "ne")
+	for i := 0; i < ne; i++ {
+		a, b := rapid.IntRange(0, n-1).Draw(t, "ea"), rapid.IntRange(0, n-1).Draw(t, "eb")
+		if a != b {
+			sb.WriteString(pre + "n" + string(rune('0'+a)) + " -> " + pre + "n" + string(rune('0'+b)) + "\n")
+		}
+	}
+	return layCase{Text: sb.String(), Engine: rapid.SampledFrom([]string{"dagre", "dagre", "elk"}).Draw(t, "eng"), Kind: "leafstack"}
+}
+
 func genC19(t *rapid.T) layCase {
+	if gen.Pick(t, "leafstack", 3, 1) == 1 {
+		return genLeafStack(t)
+	}
 	if gen.Pick(t, "tame", 3, 1) == 0 {
 		return genLayCase(t, gen.TameDiagramOpts(), "tame")
 	}
@@ -151,6 +194,9 @@ func kindOfPair(a, b *d2graph.Object) string {
 // are violations; on the unrestricted generator they are attributed to the known weakness of
 // the layout engines with decorated / non-rectangular / connected containers.
 func c19sig(c layCase, base, kind string) string {
+	if c.Kind == "leafstack" {
+		return base + ":leafstack:" + kind
+	}
 	if c.Kind == "tame" || c.Kind == "snippet" {
 		if c.Engine == "dagre" && (strings.HasPrefix(c.Text, "direction: right") || strings.HasPrefix(c.Text, "direction: left")) && strings.Contains(c.Text, "\n    ") {
 			// dagre, horizontal root direction, containers nested >= 2 deep: the growth of nested
